@@ -122,6 +122,14 @@ func WithRandReader(r io.Reader, fn func()) {
 	fn()
 }
 
+// KitDecryptRaw is v1.Decrypt on a reader of any kind (kit sees its dynamic
+// type); only the synchronous part runs in the exclusive section.
+func KitDecryptRaw(in io.Reader, opts v1.DecryptOptions) (io.Reader, error) {
+	gate.Lock()
+	defer gate.Unlock()
+	return v1.Decrypt(in, opts)
+}
+
 // KitEncrypt is v1.Encrypt on a Source (no exclusive section is needed: the
 // synchronous part of Encrypt does not touch the pool).
 func KitEncrypt(src *Source, opts v1.EncryptOptions) (io.Reader, error) {
@@ -187,14 +195,21 @@ type Source struct {
 	FailAt  int         // call index at which the sticky fault starts (-1 = never)
 	FailDat bool        // the failing call also delivers its data
 	FailErr error       // the error of the fault (nil = ErrInjected)
-	Stream  io.Reader   // when set, Reads are served by this reader (no script, no fault): for data too large to hold
-	Calls   int
+	// EmptyEvery = k > 0: the source answers (0, nil) once before every k-th
+	// data read (k = 1: before each), never twice in a row - what a
+	// non-blocking transport does now and then; no deviation script is needed.
+	EmptyEvery int
+	EmptyReads int       // how many such answers were given
+	Stream     io.Reader // when set, Reads are served by this reader (no script, no fault): for data too large to hold
+	Calls      int
 
-	pos     int
-	failed  bool
-	phase   atomic.Int32
-	entered atomic.Int64
-	sig     chan struct{}
+	pos       int
+	dataReads int
+	justEmpty bool
+	failed    bool
+	phase     atomic.Int32
+	entered   atomic.Int64
+	sig       chan struct{}
 }
 
 // NewSource returns a source with no script and no fault.
@@ -235,6 +250,15 @@ func (s *Source) Read(p []byte) (int, error) {
 		return 0, ferr
 	}
 	rem := len(s.Data) - s.pos
+	if s.EmptyEvery > 0 && rem > 0 && len(p) > 0 {
+		if !s.justEmpty && s.dataReads%s.EmptyEvery == 0 {
+			s.justEmpty = true
+			s.EmptyReads++
+			return 0, nil
+		}
+		s.justEmpty = false
+		s.dataReads++
+	}
 	n := len(p)
 	if n > rem {
 		n = rem
